@@ -89,6 +89,11 @@ CHECKS = {
         "All bounded disturber scripts (unrelated classes with A's names, subclasses, other instances, models of the same class) interleaved with A's events.",
         "DESIGN.md section 4 C16",
     ),
+    "C17": sx(
+        "copy.deepcopy / pickle executed under the tracer; original and clone driven on solver-enumerated diverging suffixes with symbolic guards and compared with the transition table and with each other's side effects",
+        "Both copy mechanisms x option combinations x history prefixes x interleaved suffixes (bounded), incl. an async machine copied before activation.",
+        "DESIGN.md section 4 C17",
+    ),
     "C14": sx(
         "result rule judged on symbolic return values incl. awkward kinds",
         "All bounded populations of before/on callbacks x transition kinds x engines with symbolic return values; 0->None, 1->unwrapped, else list.",
